@@ -53,8 +53,20 @@ def obligations(prefix):
     ctx = symex.Ctx(); ctx.resolver = u.resolver(())
     ctx.contracts.update({"HalfSpace::clip": c_clip, "SimulationBoundary::iloc": c_iloc, "HalfSpace::right_loc": c_right_loc,
                           "in_sphere_test_exact": c_exact, "[]::swap": c_swap})
-    v, env, ctx, it = symex.run_stmts(stmts, {"self": cell, "p": p, "generators": gens, "simulation_boundary": boundary,
-                                             "i": i, "num_v": num_v, "num_r": num_r}, ctx, {}, "ConvexCell")
+    # loop-carried locals declared in front of the loop (besides the three counters) enter the body with an arbitrary value of their type:
+    # what the body does must be right whatever earlier iterations left in them
+    start = {"self": cell, "p": p, "generators": gens, "simulation_boundary": boundary, "i": i, "num_v": num_v, "num_r": num_r}
+    for s_ in u.fn["body"]["stmts"]:
+        if s_["sp"][1] > lp["sp"][0] or s_.get("k") != "let": continue
+        pat = s_["pat"]; ty = None
+        if pat.get("k") == "ptype": ty, pat = pat["ty"], pat["pat"]
+        if pat.get("k") == "pident" and pat["name"] not in start:
+            start[pat["name"]] = symex.unknown_of_type(ctx, ty or "?", pat["name"])
+            if pat.get("mut"): ctx.mutable.add(pat["name"])
+    it = symex.Interp(ctx, {}); it.tolerant = True
+    env = symex.Env(ctx, start, TRUE, "ConvexCell")
+    ctx.mutable.update({"i", "num_v", "num_r", "self"})
+    v = it.exec_block(env, {"k": "block", "stmts": stmts, "sp": [stmts[0]["sp"][0], stmts[-1]["sp"][1]]})
     lab = u.label + " / vertex-loop body"
     # the filter's contract (E3: HalfSpace::clip) and the predicate's (C10): answers are -1, 0 or +1
     tri = lambda x: Or(Eq(x, Const(-1, "Real")), Eq(x, R0), Eq(x, Const(1, "Real")))
@@ -63,7 +75,17 @@ def obligations(prefix):
     obs = [Obligation(prefix + ".clipwire.requires_satisfiable", P, TRUE, lab, expect_sat=True)]
     if ctx.obls:
         obs.append(Obligation(prefix + ".clipwire.no_overflow_or_underflow_of_the_counters", P, And(*[Implies(o.pc, o.cond) for o in ctx.obls]), lab))
-    E = lambda name, goal: obs.append(Obligation(prefix + ".clipwire." + name, P, goal, lab))
+    # tolerant evaluation: if statements were skipped, what the body does is only partly known - a refutation then needs a replay on the real
+    # code (exact and near-exact lattices, where ties are actually resolved)
+    skipped = bool(ctx.skipped)
+    def replay_ties(ob):
+        from .surfaces import lattice_probe
+        n_, bad_ = lattice_probe((0.0, 1e-11, 5e-11), seeds=(0, 1, 2))
+        return {"reproduced": bad_ is not None, "searched": n_, "mismatch": bad_}
+    def E(name, goal):
+        o_ = Obligation(prefix + ".clipwire." + name, P, goal, lab, replay=replay_ties)
+        o_.havoc = skipped
+        obs.append(o_)
     ok_shape = (len(log["clip"]) == 1 and len(log["exact"]) == 1 and len(log["iloc"]) == 5 and len(log["right_loc"]) == 4 and len(log["swap"]) == 1)
     E("one_filter_call_one_exact_call_five_grid_points", Const(bool(ok_shape)))
     if not ok_shape:
